@@ -53,14 +53,26 @@ def gen(rng, tier):
             z = f64(rng.choice([0.0, -0.0]))      # (a non-zero negligible coefficient would not be exact in binary64)
             dv_ids = [e[0] for e in x if e[0] < 777000]
             lin0 = ["lin", [[[params[0], z]] + ([[dv_ids[0], f64(2.0)]] if dv_ids else []) + [[params[-1], f64(1.5)]], f64(1.0)]]
-            where = rng.choice(["objective", "constraint", "quad-linear"])
-            if where == "objective" or not q[4]:
+            where = rng.choice(["objective", "constraint", "quad-linear", "quad-zero-entries", "quad-zero-entries"])
+            if where == "quad-zero-entries":
+                # a Quadratic ALL of whose entries are explicit zeros (so that it "has degree 0") mentioning a parameter, with an
+                # absent or term-free linear part: it is still a function of that parameter until instantiated
+                xs = dv_ids[:1] or [params[0]]
+                qz = ["quad", [[params[0], xs[0]], [xs[0], params[-1]], [z, f64(0.0)],
+                               rng.choice([[], [[[], f64(3.0)]]])]]
+                if q[4] and rng.random() < 0.5:
+                    q[4][0][2] = [qz]
+                else:
+                    q[1] = [qz]
+                cases.append({"op": "with_parameters_eval", "input": [q, theta, x], "stream": "zero-coefficient-parameter/quad"})
+            elif where == "objective" or not q[4]:
                 q[1] = [lin0]
             elif where == "constraint":
                 q[4][0][2] = [lin0]
             else:
                 q[4][0][2] = [["quad", [[], [], [], [lin0[1]]]]]
-            cases.append({"op": "with_parameters_eval", "input": [q, theta, x], "stream": "zero-coefficient-parameter"})
+            if where != "quad-zero-entries":
+                cases.append({"op": "with_parameters_eval", "input": [q, theta, x], "stream": "zero-coefficient-parameter"})
         cases.append({"op": "with_parameters", "input": [pinst, theta + [[900001, f64(1.5)]]], "stream": "extras"})
         for p in params:
             cases.append({"op": "with_parameters", "input": [pinst, [e for e in theta if e[0] != p]], "stream": "missing"})
